@@ -339,4 +339,115 @@ theorem run_eq_fixed (g : Garbage) (buf : List Nat) :
     · rename_i hs; simp only [hs]; exact ⟨trivial, trivial, trivial⟩
     · rename_i hs; simp only [hs]; exact ⟨trivial, trivial, trivial⟩
 
+/-! ### the repaired cursor does not depend on memory outside the stream -/
+
+theorem hdr_indep (g g' : Garbage) (buf : List Nat) (off : Int) (h0 : 0 ≤ off) (hk : Fixed.HdrOk g buf off) :
+    flagsAt g buf off = flagsAt g' buf off ∧ evSizeC g buf off = evSizeC g' buf off ∧
+    evSizeReads g buf off = evSizeReads g' buf off ∧ clockAt g buf off = clockAt g' buf off ∧
+    Fixed.HdrOk g' buf off := by
+  obtain ⟨h12, hj⟩ := hk
+  have hf : flagsAt g buf off = flagsAt g' buf off := byteAt_inb g g' buf off h0 (by omega)
+  have hc : clockAt g buf off = clockAt g' buf off := by
+    unfold clockAt; rw [readLE_inb g g' buf 8 (off + 4) (by omega) (by omega)]
+  by_cases j : isJumboF (flagsAt g buf off) = true
+  · obtain ⟨h16, hs⟩ := hj j
+    have hz : jumboSizeAt g buf off = jumboSizeAt g' buf off := by
+      unfold jumboSizeAt; rw [readLE_inb g g' buf 4 (off + 12) (by omega) (by omega)]
+    refine ⟨hf, ?_, ?_, hc, ⟨h12, fun _ => ⟨h16, by rw [← hz]; exact hs⟩⟩⟩
+    · unfold evSizeC payloadSizeC; rw [← hf, ← hz]
+    · unfold evSizeReads; rw [← hf]
+  · refine ⟨hf, ?_, ?_, hc, ⟨h12, fun j' => absurd (hf ▸ j') j⟩⟩
+    · unfold evSizeC payloadSizeC; rw [← hf, if_neg j, if_neg j]
+    · unfold evSizeReads; rw [← hf]
+
+theorem loadEv_indep (g g' : Garbage) (buf : List Nat) (c : Cur) (off1 : Int) (r1 : List Read)
+    (h0 : 0 ≤ off1) (hk : Fixed.HdrOk g buf off1) : loadEv g buf c off1 r1 = loadEv g' buf c off1 r1 := by
+  obtain ⟨_, hs, hr, hc, _⟩ := hdr_indep g g' buf off1 h0 hk
+  unfold loadEv
+  rw [hs, hr, hc]
+
+theorem Fixed.loadEv_indep (g g' : Garbage) (buf : List Nat) (c : Cur) (off1 : Int) (r1 : List Read)
+    (h0 : 0 ≤ off1) : Fixed.loadEv g buf c off1 r1 = Fixed.loadEv g' buf c off1 r1 := by
+  unfold Fixed.loadEv
+  by_cases h12 : (buf.length : Int) - off1 < 12
+  · simp only [if_pos h12]
+  · simp only [if_neg h12]
+    have hf : flagsAt g buf off1 = flagsAt g' buf off1 := byteAt_inb g g' buf off1 h0 (by omega)
+    rw [← hf]
+    by_cases j : isJumboF (flagsAt g buf off1) = true
+    · by_cases h16 : (buf.length : Int) - off1 < 16
+      · have e : isJumboF (flagsAt g buf off1) = true ∧ (buf.length : Int) - off1 < 16 := ⟨j, h16⟩
+        simp only [if_pos e]
+      · have e : ¬ (isJumboF (flagsAt g buf off1) = true ∧ (buf.length : Int) - off1 < 16) := fun h => h16 h.2
+        simp only [if_neg e]
+        have hz : jumboSizeAt g buf off1 = jumboSizeAt g' buf off1 := by
+          unfold jumboSizeAt; rw [readLE_inb g g' buf 4 (off1 + 12) (by omega) (by omega)]
+        rw [← hz]
+        by_cases hsz : (jumboSizeAt g buf off1 : Int) > 2147483647 - 16
+        · have e2 : isJumboF (flagsAt g buf off1) = true ∧ (jumboSizeAt g buf off1 : Int) > 2147483647 - 16 := ⟨j, hsz⟩
+          simp only [if_pos e2]
+        · have e2 : ¬ (isJumboF (flagsAt g buf off1) = true ∧ (jumboSizeAt g buf off1 : Int) > 2147483647 - 16) :=
+            fun h => hsz h.2
+          simp only [if_neg e2]
+          exact Stream.loadEv_indep g g' buf c off1 r1 h0 ⟨by omega, fun _ => ⟨by omega, by omega⟩⟩
+    · have e : ¬ (isJumboF (flagsAt g buf off1) = true ∧ (buf.length : Int) - off1 < 16) := fun h => j h.1
+      have e2 : ¬ (isJumboF (flagsAt g buf off1) = true ∧ (jumboSizeAt g buf off1 : Int) > 2147483647 - 16) :=
+        fun h => j h.1
+      have e3 : ¬ (isJumboF (flagsAt g buf off1) = true ∧ (jumboSizeAt g' buf off1 : Int) > 2147483647 - 16) :=
+        fun h => j h.1
+      simp only [if_neg e, if_neg e2, if_neg e3]
+      exact Stream.loadEv_indep g g' buf c off1 r1 h0 ⟨by omega, fun j' => absurd j' j⟩
+
+theorem inv_indep (g g' : Garbage) (buf : List Nat) (c : Cur) (hi : Inv g buf c) :
+    Inv g' buf c ∧ nextOff g buf c = nextOff g' buf c ∧
+    (if c.hasEv = true then evSizeReads g buf c.offset else []) =
+      (if c.hasEv = true then evSizeReads g' buf c.offset else []) := by
+  obtain ⟨h0, h1, h2⟩ := hi
+  cases hh : c.hasEv
+  · exact ⟨⟨h0, h1, fun h => by rw [hh] at h; exact nomatch h⟩, by simp [nextOff, hh], by simp⟩
+  · obtain ⟨hk, hfit⟩ := h2 hh
+    obtain ⟨_, hs, hr, _, hk'⟩ := hdr_indep g g' buf c.offset h0 hk
+    refine ⟨⟨h0, h1, fun _ => ⟨hk', by rw [← hs]; exact hfit⟩⟩, by simp [nextOff, hh, hs], by simp [hr]⟩
+
+/-- One call of the repaired `stream_step` is a function of the file contents only. -/
+theorem Fixed.step_indep (g g' : Garbage) (buf : List Nat) (c : Cur) (hi : Inv g buf c) :
+    Fixed.streamStep g buf c = Fixed.streamStep g' buf c := by
+  obtain ⟨hn0, _, _, _⟩ := nextOff_bounds g buf c hi
+  obtain ⟨_, hn, hr⟩ := inv_indep g g' buf c hi
+  unfold Fixed.streamStep
+  simp only
+  rw [← hn, ← hr, Fixed.loadEv_indep g g' buf c _ _ hn0]
+
+theorem runWith_congr (s1 s2 : Cur → Res × Cur × List Read) (P : Cur → Prop)
+    (hstep : ∀ c, P c → s1 c = s2 c) (hpres : ∀ c c' rd, P c → s1 c = (.ok, c', rd) → P c') :
+    ∀ (fuel : Nat) (c : Cur), P c →
+      runWith s1 fuel c = runWith s2 fuel c ∧ readsWith s1 fuel c = readsWith s2 fuel c := by
+  intro fuel
+  induction fuel with
+  | zero => intro c _; exact ⟨rfl, rfl⟩
+  | succ n ih =>
+    intro c hc
+    have heq := hstep c hc
+    match hs : s1 c with
+    | (.ok, c', rd) =>
+      have hs2 : s2 c = (.ok, c', rd) := by rw [← heq]; exact hs
+      obtain ⟨a, b⟩ := ih c' (hpres c c' rd hc hs)
+      simp only [runWith, readsWith, hs, hs2]
+      exact ⟨a, by rw [b]⟩
+    | (.eof, c', rd) =>
+      have hs2 : s2 c = (.eof, c', rd) := by rw [← heq]; exact hs
+      simp only [runWith, readsWith, hs, hs2]
+      exact ⟨trivial, trivial⟩
+    | (.err e, c', rd) =>
+      have hs2 : s2 c = (.err e, c', rd) := by rw [← heq]; exact hs
+      simp only [runWith, readsWith, hs, hs2]
+      exact ⟨trivial, trivial⟩
+
+theorem Fixed.run_indep (g g' : Garbage) (buf : List Nat) (fuel : Nat) (c : Cur) (hi : Inv g buf c) :
+    Fixed.run g buf fuel c = Fixed.run g' buf fuel c ∧
+    Fixed.runReads g buf fuel c = Fixed.runReads g' buf fuel c :=
+  runWith_congr (Fixed.streamStep g buf) (Fixed.streamStep g' buf) (Inv g buf)
+    (fun c hc => Fixed.step_indep g g' buf c hc)
+    (fun c c' rd hc hs => (Fixed.step_ok g buf c c' rd hc hs).1) fuel c hi
+
 end Ovni.Emu.Stream
